@@ -16,6 +16,8 @@ func checkC12(c *Ctx) {
 	c.Rule("C12.R1", "full-width, checked tag comparison: unwrap returns 0 only through the ==1 edge of a constant-time comparison of the whole computed tag (filled by Vatte with TagSize*8 bits) with the unsliced tag argument; Open hands it exactly the last TagSize bytes under total >= TagSize and turns a non-zero result into (nil, error) (E1 + E2 facts)")
 	c.Rule("C12.R2", "no aliasing into wrap/unwrap: the data and tag buffers Seal/Open pass down are slices of a buffer allocated in that call (make + copy), never of a caller argument (def-use roots)")
 	c.Rule("C12.R3", "byte-granular state writers preserve the rest of the lane: in snp.StateSetByte / StateAddByte / cyclist.stateAddByte the value stored to state[lane] depends on the previous value of that lane (read-modify-write); RefMaskInitialize hands the whole key to StateSetBytes and pads at len(key) (def-use)")
+	c.Rule("C12.R4", "session parity stays in step: wrap and unwrap flip s.e exactly once on every path that returns 0 (the two ends of a session run one wrap against one unwrap per message; a path of one of them that skips the flip, for one class of messages, makes every later message of the session fail to open) (E1 counting, sibling agreement)")
+	c12Parity(c)
 	c.Decides("that a forged tag cannot be accepted through a narrow or unchecked comparison, that callers' overlapping buffers are not corrupted, that setting the padding byte cannot erase key bytes")
 	c.NotDecided("conformance of Kravatte-SANSE outputs with the specification for all keys and lengths (numerical statement)")
 
@@ -265,5 +267,64 @@ func checkC12(c *Ctx) {
 		}
 		c.Check(wholeKey, "C12.R3", FuncName(rm)+"#whole-key", P.Pos(rm.Pos()), "StateSetBytes(&k, key) with the unsliced key", "RefMaskInitialize does not absorb the whole key")
 		c.Check(padAtLen, "C12.R3", FuncName(rm)+"#pad", P.Pos(rm.Pos()), "padding byte 1 at offset len(key)", "RefMaskInitialize does not place the padding byte right after the key")
+	}
+}
+
+func c12Parity(c *Ctx) {
+	P := c.P
+	fE := P.Field("kravatte", "sanse", "e")
+	if fE == nil {
+		c.Undecided("C12.R4", "kravatte.sanse.e", "field not found")
+		return
+	}
+	for _, n := range []string{"(*sanse).wrap", "(*sanse).unwrap"} {
+		fn := P.Func("kravatte", n)
+		if fn == nil {
+			c.Undecided("C12.R4", "kravatte."+n, "function not found")
+			continue
+		}
+		name := FuncName(fn)
+		c.Analysed(name)
+		fs := newFailSet()
+		succ := 0
+		ok := walkAll(c, "C12.R4", fn, func(p *Path) {
+			r := p.Returns()
+			if r == nil || len(r.Results) != 1 {
+				return
+			}
+			// success = the result is 0 or not a constant (e.g. a callee's status handed on)
+			if v, isC := constInt(p.Resolve(r.Results[0], len(p.Blocks)-1)); isC && v != 0 {
+				return
+			}
+			succ++
+			flips := 0
+			p.ForEach(func(i int, ins ssa.Instruction) bool {
+				st, ok := ins.(*ssa.Store)
+				if !ok || !isFieldRef(st.Addr, fE) {
+					return true
+				}
+				// value: load(e) ^ 1
+				if bo, ok := strip(st.Val).(*ssa.BinOp); ok && bo.Op == token.XOR {
+					k, isC := constInt(bo.Y)
+					if isC && k == 1 && lastField(bo.X) == fE {
+						flips++
+						return true
+					}
+				}
+				flips += 100 // any other store to e
+				return true
+			})
+			if flips != 1 {
+				what := fmt.Sprintf("flips the session parity bit %d times", flips)
+				if flips >= 100 {
+					what = "stores something other than e^1 into the session parity bit"
+				}
+				fs.add("parity", name+" returns success on a path that "+what+" (exactly one flip per message required: the peer's counterpart flips once per message, so the two ends fall out of step and every later message of the session is rejected)", p.Exit(), p)
+			}
+		})
+		if ok {
+			fs.report(c, "C12.R4", name, []string{"parity"}, P.Pos(fn.Pos()), fmt.Sprintf("one flip of s.e on each of %d success paths", succ))
+			c.Floor("C12.R4", "success paths of "+name, succ, 2)
+		}
 	}
 }
